@@ -66,6 +66,22 @@ def load (g : GOracle) (j : Json) : Json := Id.run do
       | .error e => return J.obj [("id", id), ("agree", false), ("spec", true), ("note", s!"ast: {e}")]
       | .ok stmts =>
         let cs := stmts.flatMap calls
+        -- the v2 check pass (same traversal, table of the same names, arity rule as the checker)
+        if J.bool (J.get sj "check2") then
+          let arity : CallInfo → Option (CM Unit) := fun c =>
+            some (if c.args.length > 3 then cErr name c.np "too-many-arguments" else pure ())
+          match checkNodes name (fun n => fns.contains n) arity 10000 stmts {} with
+          | .err e =>
+            if J.isNull (J.get sj "check2_err") then
+              notes := notes ++ [s!"v2 check: model rejects {bstr name} ({e.msg} {(chainJson e).compress}) but the v2 check pass accepts"]
+              specOk := false
+            else if (chainJson e).compress != chainOfJson (J.get sj "check2_err") then
+              notes := notes ++ [s!"v2 check: error position of {bstr name}: model {(chainJson e).compress} ({e.msg}) impl {chainOfJson (J.get sj "check2_err")} ({J.str (J.get (J.get sj "check2_err") "msg")})"]
+          | .ok _ _ =>
+            if !J.isNull (J.get sj "check2_err") then
+              notes := notes ++ [s!"v2 check: model accepts {bstr name} but the v2 check pass rejects: {J.str (J.get (J.get sj "check2_err") "msg")}"]
+              specOk := false
+          | _ => notes := notes ++ ["v2 check: model fuel"]
         match checkScript 10000 oracle fns name stmts with
         | .need q => return J.obj [("id", id), ("agree", true), ("spec", true), ("need", J.toHex q), ("note", "")]
         | .fuel => return J.obj [("id", id), ("agree", false), ("spec", true), ("note", "check fuel")]
